@@ -674,9 +674,9 @@ class KmipEngine(object):
         elif attr_name == 'Object Type':
             return managed_object.object_type
         elif attr_name == 'Cryptographic Algorithm':
-            return managed_object.cryptographic_algorithm
+            return getattr(managed_object, 'cryptographic_algorithm', None)
         elif attr_name == 'Cryptographic Length':
-            return managed_object.cryptographic_length
+            return getattr(managed_object, 'cryptographic_length', None)
         elif attr_name == 'Cryptographic Parameters':
             return None
         elif attr_name == 'Cryptographic Domain Parameters':
@@ -2254,7 +2254,13 @@ class KmipEngine(object):
                         name
                     )
                     if attribute is None:
-                        continue
+                        self._logger.debug(
+                            "Failed match: "
+                            "the object has no value for the specified "
+                            "attribute ({}).".format(name)
+                        )
+                        add_object = False
+                        break
                     elif name == "Application Specific Information":
                         application_namespace = value.application_namespace
                         application_data = value.application_data
